@@ -387,20 +387,27 @@ class Check:
         depends on; record obligations/discharged and the Print Assumptions result."""
         from translate import gen
 
-        props = os.path.join(COQ, "Props", f"{self.pid}.v")
-        names = _THM.findall(re.sub(r"\(\*.*?\*\)", "", open(props).read(), flags=re.S))
+        import glob as _glob
+
+        # the property file Props/<pid>.v plus any additional statement files Props/<pid>_*.v
+        files = [os.path.join(COQ, "Props", f"{self.pid}.v")] + sorted(_glob.glob(os.path.join(COQ, "Props", f"{self.pid}_*.v")))
+        names = []
+        for props in files:
+            names += _THM.findall(re.sub(r"\(\*.*?\*\)", "", open(props).read(), flags=re.S))
         self.coverage["obligations"] = len(names)
+        vos = ["Props/" + os.path.basename(f)[:-2] + ".vo" for f in files]
+        vo = " ".join(vos)
         with coq_lock():
             st = gen.regenerate(self.groups)
             self.notes["fragments"] = st
             ensure_project()
-            vo = f"Props/{self.pid}.vo"
-            # force recompilation of the property file so that Print Assumptions is re-run
-            try:
-                os.remove(os.path.join(COQ, vo))
-            except OSError:
-                pass
-            rc, out, err, dt = run(["make", "-j16", "COQC=timeout 900 coqc", vo], timeout=timeout, cwd=COQ)
+            # force recompilation of the property files so that Print Assumptions is re-run
+            for v in vos:
+                try:
+                    os.remove(os.path.join(COQ, v))
+                except OSError:
+                    pass
+            rc, out, err, dt = run(["make", "-j16", "COQC=timeout 900 coqc", *vos], timeout=timeout, cwd=COQ)
         cmd = f"cd {COQ} && make -j16 {vo}   (coqc 8.16.1, full .vo build; Print Assumptions after every theorem)"
         self.coverage["checker_cmd"] = cmd
         self.notes["proof_build_s"] = round(dt, 1)
@@ -452,7 +459,8 @@ class Check:
         self.notes["theorems"] = names
         if self.tier == "thorough":
             # independent re-check of the compiled property file and everything it depends on
-            rc2, out2, err2, dt2 = run(["coqchk", "-silent", "-o", "-Q", COQ, "SB3V", f"SB3V.Props.{self.pid}"], timeout=1800, cwd=COQ)
+            mods = ["SB3V.Props." + os.path.basename(f)[:-2] for f in files]
+            rc2, out2, err2, dt2 = run(["coqchk", "-silent", "-o", "-Q", COQ, "SB3V", *mods], timeout=1800, cwd=COQ)
             txt = out2 + err2
             m = re.search(r"\* Axioms:(.*?)(?:\n\s*\n|\Z)", txt, re.S)
             self.notes["coqchk"] = {"rc": rc2, "wall_s": round(dt2, 1),
